@@ -395,6 +395,76 @@ def _stable_from_value(p, I, pos, cont, env):
     return frm is not None and _stable_after(p, frm, pos, cont, env)
 
 
+def _tag_atoms(p, env):
+    """[(object, type, truth)] : every test of an Object's tag the path has taken, positive and negative"""
+    from rules.unsafe_inv import canon, TYPE
+    from rules.shared import deref, truth
+    out = []
+    for c in p.constraints:
+        if c[0][0] == 'variant' and c[0][2] == TYPE and len(c[0]) > 3:
+            v = c[0][3]
+            if v and v[0] == 'call' and v[1] == 'object::Object::tag' and c[1]:
+                if str(c[1]).startswith('otherwise:'):
+                    for ty in str(c[1])[10:].split('|'):
+                        pass
+                    # the listed variants are the ones still possible: all others are excluded
+                    possible = set(str(c[1])[10:].split('|'))
+                    out.append((canon(env, v[2][0]), ('oneof', frozenset(possible)), True))
+                else:
+                    out.append((canon(env, v[2][0]), c[1], True))
+        elif c[0][0] == 'switch':
+            v = c[0][1]
+            if v[0] == 'call' and v[1].endswith(('PartialEq::ne', 'PartialEq>::eq', 'PartialEq::eq', 'PartialEq>::ne')) and len(v[2]) == 2:
+                equal = truth(c) != v[1].endswith('ne')
+                a, b = [deref(env, x) for x in v[2]]
+                for x, y in ((a, b), (b, a)):
+                    if x[0] == 'call' and x[1] == 'object::Object::tag' and y[0] == 'enum':
+                        out.append((canon(env, x[2][0]), y[2], equal))
+    return out
+
+
+def _contradictory(atoms):
+    from rules.unsafe_inv import same
+    for i, (o1, t1, v1) in enumerate(atoms):
+        for (o2, t2, v2) in atoms[i + 1:]:
+            if not same(o1, o2):
+                continue
+            s1 = t1[1] if isinstance(t1, tuple) else None
+            s2 = t2[1] if isinstance(t2, tuple) else None
+            if s1 is None and s2 is None:
+                if (t1 == t2 and v1 != v2) or (t1 != t2 and v1 and v2):
+                    return True
+            elif s1 is not None and s2 is None and v2 and t2 not in s1:
+                return True
+            elif s2 is not None and s1 is None and v1 and t1 not in s2:
+                return True
+    return False
+
+
+def assertion_infeasible(F, site):
+    """a failing assert!/debug_assert!: every path that reaches the panic has taken two tag tests on the same object that
+    cannot both hold (the asserted tag was established by an earlier match arm or test), so the panic is unreachable"""
+    fn = site['f']
+    b = site['block']
+    if not (site['kind'] == 'call' and site['what'].startswith('core::panicking::') and macro_of(site['span']) in
+            ('assert', 'debug_assert', 'assert_eq', 'debug_assert_eq', 'assert_ne', 'debug_assert_ne')):
+        return None
+    ps = _path_data(F, fn, b)
+    if ps is None:
+        return None
+    reached = 0
+    for p in ps:
+        for pos, sb, env in p.snaps:
+            if sb != b:
+                continue
+            reached += 1
+            if not _contradictory(_tag_atoms(p, env)):
+                return None
+    if not reached:
+        return None
+    return 'D1p', 'the failing branch of the assertion contradicts a tag test taken earlier on each of the %d paths reaching it' % reached
+
+
 def path_discharge(F, site):
     fn = site['f']
     t = site['term']
@@ -754,6 +824,37 @@ def d3_table(ctx):
         ok, why = _csa_ok(ctx, ('O1', 'O2', 'O3', 'O8', 'O1-underflow'))
         return ok, why or 'at OpCode::%s the operands it removes are on the stack (CSA: they are pushed before it, O1/O8)' % arm
 
+    def arm_assert(ctx, site):
+        """assert!/debug_assert! inside an opcode arm whose condition restates an invariant of generated code"""
+        fn = site['f']
+        b = site['block']
+        if macro_of(site['span']) not in ('assert', 'debug_assert'):
+            return False, 'not covered'
+        from rules import vmx
+        V = vmx.vmx(ctx)
+        arm = next((nm for nm, a in V['arms'].items() if b in a['region']), None)
+        if arm is None:
+            return False, 'not covered'
+        mine = [f for f in facts_at(fn, b) if f[0] in ('Lt', 'Le', 'Gt', 'Ge') and f[3] == b]
+        for f in mine:
+            op, x, y = f[0], strip(f[1]), strip(f[2])
+            if op in ('Gt', 'Ge'):
+                op, x, y = {'Gt': 'Lt', 'Ge': 'Le'}[op], y, x
+            # failing side: len(self.stack) < n  -- the arm removes n operands that generated code has pushed
+            if op == 'Lt' and x[0] == 'len' and "'stack'" in str(x):
+                s_arm, probs = vmx.summarize(V['arms'][arm])
+                if probs:
+                    return False, 'the stack effect of OpCode::%s cannot be read' % arm
+                ok, why = _csa_ok(ctx, ('O1', 'O2', 'O3', 'O8', 'O1-underflow'))
+                return ok, why or 'at OpCode::%s the operands it removes are on the stack (CSA O1/O8)' % arm
+            # failing side: K < operand byte, K >= the largest Builtin discriminant, in the CallBuiltin arm
+            if arm == 'CallBuiltin' and x[0] == 'int' and y[0] == 'call' and y[1] == 'vm::VM::read_u8':
+                ds = [v['discr'] if v['discr'] is not None else i for i, v in enumerate(F.adt('builtins::Builtin')['variants'])]
+                if (op == 'Lt' and x[1] >= max(ds)) or (op == 'Le' and x[1] > max(ds)):
+                    ok, why = _csa_ok(ctx, ('O8',))
+                    return ok, why or 'the operand of CallBuiltin is `builtin as u8` (CSA O8), at most %d' % max(ds)
+        return False, 'not covered'
+
     def int_encoder(ctx, site):
         from framework import Report
         from rules import shared
@@ -780,6 +881,7 @@ def d3_table(ctx):
 
     rows = [
         ('vm::VM::run', 'Assert(Overflow)', 'R02.6/R17.1', call_arm_stack),
+        ('vm::VM::run', 'panicking::panic', 'R02.6/R17.1', arm_assert),
         ('object::Object::int', 'assert_failed', 'R06.3', int_encoder),
         ('builtins::call_print', 'unwrap', 'local', print_guard),
         ('vm::VM::run', 'index', 'R02.6/R17.1', constants_index),
@@ -869,7 +971,7 @@ def verdict_for(ctx, s, rows=None, cache=None):
                 verdict = (ok, 'D3[%s]: %s' % (rule, why))
                 break
     if verdict is None or not verdict[0]:
-        pd = path_discharge(F, s) or countdown_index(F, s)
+        pd = path_discharge(F, s) or countdown_index(F, s) or assertion_infeasible(F, s)
         if pd:
             verdict = (True, '%s: %s' % pd)
     if verdict is None:
